@@ -97,6 +97,13 @@ def worker(job):
         glrL, _ = real.build("glr", ltext)
     elif comments:
         text = with_layout(g, CM_LAYOUT, CM_LAYOUT_TERMS)
+        if job.get("anchored"):
+            # the usual anchored line comment /\/\/.*$/ in a grammar loaded with ignore_case=True: the grammar's regex flags (MULTILINE) hold for
+            # every regex whatever other flags are added (round-5 seeded change C14-g: `re_flags = re.IGNORECASE` instead of `|=`)
+            text = text.replace("LineComment: /\\/\\/.*/;", "LineComment: /\\/\\/.*$/;")
+            assert "$/" in text
+            with real.quiet():
+                text = real.Grammar.from_string(text, ignore_case=True)
         lr, _ = real.build("lr", text, build_tree=True)
         glr, _ = real.build("glr", text)
         lrL = glrL = None
@@ -156,7 +163,7 @@ def worker(job):
                 variants.append({"text": w, "tokstart": starts, "endpos": end, "wsonly": False, "junk": True,
                                  "lr": _run(real, lr, w, False) if lr else none, "glr": _run(real, glr, w, True),
                                  "lrL": _run(real, lrL, w, False) if lrL else none, "glrL": _run(real, glrL, w, True) if glrL else none})
-        out.append({"name": "%s %s @ %s" % (gen.gname(g), "[LAYOUT with comments]" if comments else ("[ws=%r vs LAYOUT rule]" % ws if ws is not None else "[ws vs LAYOUT rule]"), " ".join(toks)), "origin": job["origin"],
+        out.append({"name": "%s %s @ %s" % (gen.gname(g), ("[LAYOUT with comments, anchored line comment, ignore_case]" if job.get("anchored") else "[LAYOUT with comments]") if comments else ("[ws=%r vs LAYOUT rule]" % ws if ws is not None else "[ws vs LAYOUT rule]"), " ".join(toks)), "origin": job["origin"],
                     "pair": (not comments) and lrL is not None and glrL is not None and lr is not None, "comments": comments, "variants": variants})
     return out
 
@@ -173,6 +180,8 @@ def _jobs(tier, seed):
         words = gen.directed_inputs(g, r, n_all=2, maxlen=6, n_sent=p["nseq"], n_mut=3)
         words = [w for w in words if w][: p["nseq"] + 6]
         jobs.append({"g": g, "seqs": words, "comments": i % 2 == 1, "origin": "det" if i % 4 else "rand", "seed": r.randrange(1 << 30), "nvar": p["nvar"]})
+        if i % 6 == 1:
+            jobs.append(dict(jobs[-1], anchored=True))
     for k, (ws, wsre, terms) in enumerate(CUSTOM_WS):
         tn = [t[0] for t in terms]
         for j, g in enumerate(gen.family(3, 3, nts=("S", "A"), terms=terms, limit=12, rng_seed=1500 + k)):
